@@ -148,7 +148,7 @@ func initHashRecord() {
 
 	Def(
 		c,
-		"map",
+		"map_pairs",
 		func(vm *Thread, args []value.Value) (value.Value, value.Value) {
 			self := args[0].MustReference().(HashRecord)
 			callable := args[1]
